@@ -92,7 +92,7 @@ Fixpoint set_prop (l : list (Z * P)) (n : Z) (p : P) : list (Z * P) :=
 Fixpoint del_prop (l : list (Z * P)) (n : Z) : list (Z * P) :=
   match l with
   | [] => []
-  | (m, q) :: l' => if m =? n then l' else (m, q) :: del_prop l' n
+  | (m, q) :: l' => if m =? n then del_prop l' n else (m, q) :: del_prop l' n
   end.
 End Assoc.
 
@@ -205,6 +205,13 @@ Definition can_put (h : heap) (a : nat) (n : Z) : bool :=
       end
   end.
 
+(* 8.12.2 started on the object itself: own property, else the prototype's [[GetProperty]] *)
+Definition get_property_of (h : heap) (o : obj) (n : Z) : option prop :=
+  match lookup (o_props o) n with
+  | Some p => Some p
+  | None => match o_proto o with None => None | Some pa => get_property (length h) h pa n end
+  end.
+
 Definition value_desc (v : val) : desc := mkD (Some v) None None None None None.
 Definition full_desc (v : val) : desc := mkD (Some v) (Some true) None None (Some true) (Some true).
 
@@ -218,7 +225,7 @@ Definition put (h : heap) (a : nat) (n : Z) (v : val) : heap * list Z :=
            | Some (PData _ _ _ _) =>
                match define_own o n (value_desc v) with Some o' => (upd h a o', []) | None => (h, []) end
            | _ =>
-               match get_property (length h) h a n with
+               match get_property_of h o n with
                | Some (PAcc _ (Some f) _ _) => (h, [f + 1; Z.of_nat a; enc_val v])
                | Some (PAcc _ None _ _) => (h, [])
                | _ => match define_own o n (full_desc v) with Some o' => (upd h a o', []) | None => (h, []) end
